@@ -13,7 +13,7 @@ epilogue.  Decided here, from both units' facts:
 """
 import re
 from .facts import AnalysisBroken
-from .vmsym import HandlerSym, show
+from .vmsym import StackReset, HandlerSym, show
 from . import opspec
 
 
@@ -77,6 +77,11 @@ def check(run, vm):
             continue
         try:
             dl = HandlerSym(dr, roles=vroles, start=labels[h]).run()
+        except StackReset as e:
+            run.violated('DRIVERS', inst, '%s:%s' % (dr.file, (dr.blocks[labels[h]].get('label') or {}).get('ln')), 'direct region: %s -- whatever the program left on the stack is discarded before the '
+                         'machine stops, so the epilogue\'s `sp == base + 1` test (result) and check_final_stack (stack_not_empty) see a balanced stack; the call-threaded handler does no such thing: the '
+                         'two interpreter builds return different values and statuses for the same program' % e)
+            continue
         except AnalysisBroken as e:
             run.broken('DRIVERS', inst, 'direct region: %s' % e)
             continue
